@@ -21,7 +21,7 @@ BOUNDS = ["-1", "0", "1", "3", "2^31-1", "2^31", "2^31+1", "2^32-2", "2^32-1", "
 FILES = ["none", "absent", "existing", "dir", "symlink-to-file", "dangling-symlink", "parent-missing", "empty-string",
          "symlink-rel-in-subdir", "symlink-up", "symlink-abs-to-file", "symlink-to-dir", "existing-dotdot", "absent-in-subdir",
          "absent-trailing-slash", "symlink-loop", "dangling-into-missing-dir"]
-PWS = ["none", "ascii", "nfkd-sensitive", "blank-padded", "empty", "json-like"]
+PWS = ["none", "ascii", "nfkd-sensitive", "blank-padded", "empty", "json-like", "at-existing-file"]
 
 
 def all_vectors():
